@@ -35,6 +35,19 @@ type muxEv struct {
 	Got  []int  `json:"got"`
 	Eof  bool   `json:"eof"`
 	Idle bool   `json:"idle"`
+	Rf   bool   `json:"rf"` // the bytes go through Stream.ReadFrom
+}
+
+// muxChunkReader hands ReadFrom one chunk, then end-of-file
+type muxChunkReader struct{ chunk []byte }
+
+func (r *muxChunkReader) Read(b []byte) (int, error) {
+	if len(r.chunk) == 0 {
+		return 0, io.EOF
+	}
+	n := copy(b, r.chunk)
+	r.chunk = r.chunk[n:]
+	return n, nil
 }
 
 type muxObs struct {
@@ -817,7 +830,17 @@ func (w *muxWorld) doWrite(steps []muxStep, i int) muxVerdict {
 		sizes = append(sizes, sz)
 		payload = append(payload, kit.TokenBytes(muxTok(ev.E, ev.S, first+u), sz)...)
 	}
-	call := w.async("write", func(c *muxCall) { c.n, c.err = st.Write(payload) })
+	call := w.async("write", func(c *muxCall) {
+		if ev.Rf {
+			n, err := st.ReadFrom(&muxChunkReader{chunk: payload})
+			c.n = int(n)
+			if err != io.EOF { // ReadFrom returns the reader's error once the source is drained
+				c.err = err
+			}
+			return
+		}
+		c.n, c.err = st.Write(payload)
+	})
 	synctest.Wait()
 	if !call.finished() {
 		return muxVerdict{"call-blocked", fmt.Sprintf("step %d: Write on %s/%d did not return", i, ev.E, ev.S)}
